@@ -845,6 +845,9 @@ static void c04Planner(Sink &sink, const Args &a, long c, long idx)
         return;
     }
     int rounds = 3 + rng.ui(4);
+    // (informed-tree block: many short solves, so that the solution paths are cleared while several goal states are still
+    // connected - a few batches later the worse ones are pruned)
+    if (itBlock) rounds = 8 + rng.ui(5);
     double bestStored = 0;
     bool haveBest = false;
     long checked = 0;
@@ -854,7 +857,7 @@ static void c04Planner(Sink &sink, const Args &a, long c, long idx)
     {
         std::set<const ob::Path *> seen;
         for (auto &sol : pdef->getSolutions()) seen.insert(sol.path_.get());
-        EvalPTC e((long)(pi.budget * (0.2 + 0.15 * round) * (gbBlock ? 0.6 : 1.0)), false, pdef);
+        EvalPTC e(itBlock ? (long)rng.logUni(40, 500) : (long)(pi.budget * (0.2 + 0.15 * round) * (gbBlock ? 0.6 : 1.0)), false, pdef);
         try
         {
             planner->solve(e.ptc);
